@@ -158,7 +158,8 @@ def run(case, j):
         _judge_objective(j, rng, float(a), X, Yh, T, k, "LS")
         if a == 1.0:
             w = pc.spectrum(X @ X.T)
-            if pc.gap_guard(w, k):
+            # an iterative eigensolver determines eigenvectors to (its tolerance) / (relative gap): wider gaps required
+            if pc.gap_guard(w, k, rel_gap=1e-6 if solver == "full" else 1e-3):
                 pca = PCA(n_components=k, svd_solver="full").fit(X)
                 Tp = pca.transform(X)
                 j.close("mixing=1: coordinates are PCA's up to sign", T, pc.align(T, Tp), 1e-6 * float(np.sqrt(w[0])) * 10)
